@@ -284,3 +284,10 @@ def oracle(line, out):
 
 
 known_match = common.no_known
+
+
+def extra_checks(rng, tier, g, info):
+    """a wallet whose `testnet` attribute is assigned after construction: the five address kinds of one node must still
+    be encodings for ONE network (see c16.flag_reassigned)"""
+    from .c16 import flag_reassigned
+    yield from flag_reassigned(rng, tier, info)
